@@ -45,6 +45,7 @@ type Stats struct {
 	FeasQueries   int
 	AssertQueries int
 	CacheHits     int
+	DomainChecks  int
 	UnknownFeas   int
 	Merges        int
 	MergeAborts   int
@@ -115,6 +116,11 @@ type interpreter struct {
 	funcsHit  map[*ssa.Function]int64
 	overrides map[string]externalFn
 
+	varIndex   map[int]*sym.Term
+	varIndexed int
+	truthTab   map[int][]bool
+	ForkSites map[string]int
+	MergeFails map[string]int
 	pdom  map[*ssa.Function]*pdomInfo
 	onces map[*value]bool
 }
@@ -270,6 +276,10 @@ func visitInstr(fr *frame, instr ssa.Instruction) continuation {
 		i.chanSend(fr.get(instr.Chan).(*channel), fr.get(instr.X))
 
 	case *ssa.Store:
+		if sa, ok := fr.get(instr.Addr).(symAddr); ok {
+			i.symStore(sa, fr.get(instr.Val))
+			break
+		}
 		i.store(mustDeref(instr.Addr.Type()), fr.get(instr.Addr).(*value), fr.get(instr.Val))
 
 	case *ssa.If:
@@ -359,20 +369,31 @@ func visitInstr(fr *frame, instr ssa.Instruction) continuation {
 	case *ssa.IndexAddr:
 		x := fr.get(instr.X)
 		idx := fr.get(instr.Index)
+		var cells []value
 		switch x := x.(type) {
 		case []value:
-			k := i.indexFor(idx, instr.Index.Type(), len(x))
-			fr.env[instr] = &x[k]
+			cells = x
 		case *value: // *array
 			if x == nil {
 				panic(targetPanic{i.rtErr("invalid memory address or nil pointer dereference")})
 			}
-			a := (*x).(array)
-			k := i.indexFor(idx, instr.Index.Type(), len(a))
-			fr.env[instr] = &a[k]
+			cells = []value((*x).(array))
 		default:
 			panic(fmt.Sprintf("unexpected x type in IndexAddr: %T", x))
 		}
+		if it, ok := idx.(*sym.Term); ok && !it.IsConst() && len(cells) > 1 && onlyLoadStore(instr) {
+			// symbolic element address used only by loads/stores: keep it symbolic
+			inb := i.inBounds(it, len(cells))
+			if i.specDepth > 0 {
+				i.sideCond(i.ctx.Not(inb))
+			} else if !i.decide(inb) {
+				panic(targetPanic{i.rtErr(fmt.Sprintf("index out of range [symbolic] with length %d", len(cells)))})
+			}
+			fr.env[instr] = symAddr{cells: cells, idx: it, t: instr.Index.Type()}
+			break
+		}
+		k := i.indexFor(idx, instr.Index.Type(), len(cells))
+		fr.env[instr] = &cells[k]
 
 	case *ssa.Index:
 		x := fr.get(instr.X)
@@ -435,9 +456,8 @@ func (i *interpreter) needInt(v value, what string) int64 {
 // symbolic index is enumerated over its feasible values.
 func (i *interpreter) indexFor(idx value, t types.Type, n int) int {
 	if it, ok := idx.(*sym.Term); ok && !it.IsConst() {
-		w := int(it.Sort.W)
 		// unsigned comparison covers negative values too
-		inb := i.ctx.BvUlt(it, i.ctx.BVC(w, uint64(n)))
+		inb := i.inBounds(it, n)
 		if !i.decide(inb) {
 			panic(targetPanic{i.rtErr(fmt.Sprintf("index out of range [symbolic] with length %d", n))})
 		}
@@ -453,19 +473,84 @@ func (i *interpreter) indexFor(idx value, t types.Type, n int) int {
 	return int(k)
 }
 
+// symAddr is the address of cells[idx] for a symbolic in-range index.
+type symAddr struct {
+	cells []value
+	idx   *sym.Term
+	t     types.Type
+}
+
+// onlyLoadStore reports whether the address computed by instr is used only to load from or
+// store to it.
+func onlyLoadStore(instr *ssa.IndexAddr) bool {
+	refs := instr.Referrers()
+	if refs == nil {
+		return false
+	}
+	for _, r := range *refs {
+		switch r := r.(type) {
+		case *ssa.UnOp:
+			if r.Op != token.MUL {
+				return false
+			}
+		case *ssa.Store:
+			if r.Addr != instr {
+				return false
+			}
+		case *ssa.DebugRef:
+		default:
+			return false
+		}
+	}
+	return true
+}
+
+// symStore writes v to cells[idx]: every cell becomes ite(idx == k, v, old).
+func (i *interpreter) symStore(sa symAddr, v value) {
+	w := int(sa.idx.Sort.W)
+	news := make([]value, len(sa.cells))
+	for k := range sa.cells {
+		r, ok := i.iteVal(i.ctx.Eq(sa.idx, i.ctx.BVC(w, uint64(k))), v, sa.cells[k])
+		if !ok {
+			// not a scalar cell: enumerate the index instead
+			j := i.concretize(sa.idx, false, "index")
+			i.storeRec(&sa.cells[j], v)
+			return
+		}
+		news[k] = r
+	}
+	for k := range sa.cells {
+		i.setCell(&sa.cells[k], news[k])
+	}
+}
+
+// inBounds builds 0 <= it < n (unsigned view), taking care of n not representable in the width.
+func (i *interpreter) inBounds(it *sym.Term, n int) *sym.Term {
+	w := int(it.Sort.W)
+	if w < 64 && uint64(n) > (uint64(1)<<uint(w))-1 {
+		return i.ctx.True()
+	}
+	return i.ctx.BvUlt(it, i.ctx.BVC(w, uint64(n)))
+}
+
 // indexLoad reads xs[idx]; a symbolic index over scalar elements becomes an ite chain.
 func (i *interpreter) indexLoad(xs []value, idx value, t types.Type) value {
 	it, ok := idx.(*sym.Term)
 	if !ok || it.IsConst() {
 		return copyVal(xs[i.indexFor(idx, t, len(xs))])
 	}
-	w := int(it.Sort.W)
-	inb := i.ctx.BvUlt(it, i.ctx.BVC(w, uint64(len(xs))))
+	inb := i.inBounds(it, len(xs))
 	if i.specDepth > 0 {
 		i.sideCond(i.ctx.Not(inb))
 	} else if !i.decide(inb) {
 		panic(targetPanic{i.rtErr(fmt.Sprintf("index out of range [symbolic] with length %d", len(xs)))})
 	}
+	return i.indexLoadNoCheck(xs, it, t)
+}
+
+// indexLoadNoCheck builds the ite chain for xs[it] assuming it is in range.
+func (i *interpreter) indexLoadNoCheck(xs []value, it *sym.Term, t types.Type) value {
+	w := int(it.Sort.W)
 	if len(xs) == 0 {
 		i.unsupported("index into empty sequence")
 	}
@@ -473,7 +558,7 @@ func (i *interpreter) indexLoad(xs []value, idx value, t types.Type) value {
 	for k := len(xs) - 2; k >= 0; k-- {
 		r, good := i.iteVal(i.ctx.Eq(it, i.ctx.BVC(w, uint64(k))), copyVal(xs[k]), res)
 		if !good {
-			return copyVal(xs[i.indexFor(idx, t, len(xs))])
+			return copyVal(xs[i.concretize(it, false, "index")])
 		}
 		res = r
 	}
